@@ -5,7 +5,7 @@ import sys
 
 sys.path.insert(0, os.path.dirname(os.path.dirname(os.path.abspath(__file__))))
 from verif_static.core import run_check, AnalysisError  # noqa
-from verif_static import model as M, cfg as C  # noqa
+from verif_static import model as M, cfg as C, norm as N  # noqa
 
 INT = 'pysph/sph/integrator.py'
 SOL = 'pysph/solver/solver.py'
@@ -271,7 +271,7 @@ def rule_provenance(chk, tree):
                          detail='no guarded step estimate for criterion %s (factor %s)' % (crit, fv))
             continue
         i, b = found
-        gok = U(i.test).replace(' ', '') in ('%s>0' % fv, '%s>0.0' % fv)
+        gok = N.same(i.test, '%s > 0' % fv)
         got = U(b.value).replace('np.sqrt', 'sqrt').replace('numpy.sqrt', 'sqrt').replace('math.sqrt', 'sqrt')
         chk.decide(got == want, 'criterion-provenance', 'formula:' + crit, node=b, file=INT, func='compute_time_step',
                    detail_bad='criterion %s uses %s, documented formula is %s' % (crit, got, want), detail_ok=want)
@@ -296,7 +296,7 @@ def rule_provenance(chk, tree):
                    detail_bad='result is %s, documented cfl*min(...)' % ([U(r.value) for r in rets]), detail_ok='cfl*' + mv)
         none_guard = [i for i in ast.walk(cts) if isinstance(i, ast.If) and mv in U(i.test)
                       and any(isinstance(b, ast.Return) and U(b.value) == 'None' for b in i.body)]
-        ok = bool(none_guard) and 'isinf' in U(none_guard[0].test) and '<= 0' in U(none_guard[0].test)
+        ok = bool(none_guard) and N.same(none_guard[0].test, 'np.isinf(%s) or %s <= 0' % (mv, mv), 'numpy.isinf(%s) or %s <= 0' % (mv, mv), 'math.isinf(%s) or %s <= 0' % (mv, mv))
         chk.decide(ok, 'criterion-provenance', 'none-when-no-criterion', node=cts, file=INT, func='compute_time_step',
                    detail_bad='None is not returned when no criterion applies (min is inf or <= 0)', detail_ok='returns None')
     # 4. dt_adapt override dominates everything
@@ -311,13 +311,13 @@ def rule_provenance(chk, tree):
                detail_bad='an explicit dt_adapt does not take precedence', detail_ok='returned before the criteria are consulted')
     ex = M.find_func(cls, '_get_explicit_dt_adapt')
     src = U(ex)
-    pos = [i for i in ast.walk(ex) if isinstance(i, ast.If) and U(i.test).replace(' ', '') in ('dt_min>0.0', 'dt_min>0')]
+    pos = [i for i in ast.walk(ex) if isinstance(i, ast.If) and N.same(i.test, 'dt_min > 0')]
     ok = bool(pos) and isinstance(pos[0].body[0], ast.Return) and U(pos[0].body[0].value) == 'dt_min' and \
         any(isinstance(b, ast.Return) and U(b.value) == 'None' for b in pos[0].orelse)
     chk.decide(ok, 'dt-adapt-override', 'positive-or-none', node=ex, file=INT, func='_get_explicit_dt_adapt',
                detail_bad='non-positive dt_adapt does not fall through to the criteria', detail_ok='dt_min if > 0 else None')
     # empty arrays contribute +inf; arrays are filtered by having the property; real particles only
-    empt = [i for i in ast.walk(ex) if isinstance(i, ast.If) and 'get_number_of_particles() > 0' in U(i.test)]
+    empt = [i for i in ast.walk(ex) if isinstance(i, ast.If) and N.same(i.test, 'pa.get_number_of_particles() > 0', 'pa.gpu.get_number_of_particles() > 0')]
     ok = len(empt) >= 1 and all(any(isinstance(b, ast.Assign) and U(b.value) in INF for b in i.orelse) for i in empt)
     chk.decide(ok, 'dt-adapt-override', 'empty-arrays-are-inf', node=ex, file=INT, func='_get_explicit_dt_adapt',
                detail_bad='an empty array does not contribute +inf to the minimum', detail_ok='+inf for empty arrays')
@@ -375,7 +375,7 @@ def rule_consulted_every_step(chk):
             any(M.call_name(c) == 'self._compute_timestep' for c in M.calls(n.ast))]
     rets = [n for n in g.nodes if isinstance(n.ast, ast.Return)]
     cont = [n for n in rets if not (M.enclosing(n.ast, (ast.If,)) is not None and
-                                    U(M.enclosing(n.ast, (ast.If,)).test).replace(' ', '') == 'abs(self.tf-self.t)<self._epsilon')]
+                                    N.same(M.enclosing(n.ast, (ast.If,)).test, 'abs(self.tf-self.t)<self._epsilon', 'abs(self.t-self.tf)<self._epsilon'))]
     ok = bool(comp) and bool(cont) and all(g.must_pass(g.entry, r.id, comp) for r in cont)
     chk.decide(ok, 'fallback-to-fixed-step', 'criteria-consulted-for-every-step', node=gt, file=SOL, func='Solver._get_timestep',
                detail_bad='some path proposes the next step without calling _compute_timestep(): a stale step (e.g. the one saved before a '
